@@ -57,6 +57,49 @@ def run_ghe(c):
             "stored_heights": [float(h) for h in G.g_lts.keys()]}
 
 
+def run_plan(c):
+    """the decisions of the real g_function_interpolation: which kind / fill_value reach scipy (spied), which h_eq is returned, which exception"""
+    import warnings
+    import ghedesigner.gfunction as gfm
+    from ghedesigner.gfunction import GFunction
+    calls = []
+
+    class Dummy:
+        def __call__(self, h):
+            return np.float64(0.0)
+
+    def spy_interp1d(x, y, kind="linear", fill_value=None, **kw):
+        calls.append({"kind": kind, "fill": fill_value, "x": [float(v) for v in x]})
+        return Dummy()
+
+    def spy_lagrange(x, y):
+        calls.append({"kind": "lagrange", "fill": None, "x": [float(v) for v in x]})
+        return Dummy()
+    old = (gfm.interp1d, gfm.lagrange)
+    gfm.interp1d, gfm.lagrange = spy_interp1d, spy_lagrange
+    try:
+        hs = c["heights"]
+        G = GFunction(b=c["B"], d=2.0, r_b_values={h: 0.075 for h in hs}, g_lts={h: [1.0 + 0.01 * h, 2.0 + 0.01 * h] for h in hs},
+                      log_time=[-8.5, -7.0], bore_locations=[(0.0, 0.0)])
+        b_over_h = c["B"] / c["h"]
+        h0 = 1 / b_over_h * G.B            # the first statement of the method, repeated here: the model starts after it
+        out = {"h0": float(h0).hex()}
+        with warnings.catch_warnings(record=True) as w:
+            warnings.simplefilter("always")
+            try:
+                if c["kind"] == "default":
+                    gf, rb, d, heq = G.g_function_interpolation(b_over_h)
+                else:
+                    gf, rb, d, heq = G.g_function_interpolation(b_over_h, kind=c["kind"])
+                out.update({"ret": True, "h_eq": float(heq).hex(), "calls": calls[:1], "ncalls": len(calls), "warned": len(w),
+                            "single": (len(calls) == 0), "g": [float(v) for v in gf]})
+            except Exception as ex:
+                out.update({"ret": False, "exc": type(ex).__name__})
+        return out
+    finally:
+        gfm.interp1d, gfm.lagrange = old
+
+
 def ierf(x):
     from scipy.special import erf
     return x * erf(x) - (1 - np.exp(-x * x)) / np.sqrt(np.pi)
@@ -119,7 +162,7 @@ def run_fls(c):
 
 if __name__ == "__main__":
     p = read_payload()
-    fn = {"combine": run_combine, "interp": run_interp, "ghe": run_ghe, "fls": run_fls}[p["mode"]]
+    fn = {"combine": run_combine, "interp": run_interp, "ghe": run_ghe, "fls": run_fls, "plan": run_plan}[p["mode"]]
     res = []
     for c in p["cases"]:
         try:
